@@ -47,7 +47,7 @@ def _cases(draw, dmax):
     classes = ["single", "sparse", "sparse", "gradeblock"] + ["puregrade"] * 5 + ["perm", "perm", "empty", "fullcanon"]
     a = draw(S.operand(d, classes=classes, max_len=cap))
     b = draw(S.operand(d, classes=classes, max_len=cap)) if op != "normsq" else None
-    return {"cfg": cfg, "op": op, "a": a, "b": b, "mode": draw(st.sampled_from(["generic", "generic", "frac"])),
+    return {"cfg": cfg, "op": op, "a": a, "b": b, "mode": draw(st.sampled_from(["generic", "generic", "frac", "typed"])),
             "cse": draw(st.booleans()), "symcls": draw(st.sampled_from([None, None, None, "sympy"])),
             "wrapper": draw(st.integers(0, 4)) == 0}
 
@@ -82,6 +82,8 @@ def enumerate_cases(tier):
 def _values(opnd, mode, prefix):
     if mode == "generic" or opnd.get("vals") is None:
         return [Q.var(f"{prefix}{k}") for k in opnd["keys"]]
+    if mode == "typed" and opnd.get("tvals"):
+        return S.decode_typed(opnd["tvals"])
     return [frac(v) for v in opnd["vals"]]
 
 
